@@ -183,7 +183,7 @@ def builder_docs():
                                                 tys.TupleParam([tys.BoundedNatParam(None)])],
                                ext.ExplicitBound(tys.TypeBound.Copyable)))
     e.add_op_def(ext.OpDef("op", ext.OpDefSig(tys.FunctionType([B], [Q])), "descr", {"k": [1, "x"]},
-                           lower_funcs=[ext.FixedHugr(["prelude"], {"nodes": [], "note": "opaque to the schema"})]))
+                           lower_funcs=[ext.FixedHugr(["prelude"], m3.hugr)]))      # a lowering HUGR (fix 87af3c7: wire format)
     e.add_op_def(ext.OpDef("bin", ext.OpDefSig(None, binary=True), "binary one"))
     out.append(("pkg", "Package", Package([m2.hugr], [e])))
     out.append(("pkg_empty", "Package", Package([], [])))
